@@ -35,7 +35,7 @@ var fnames = []struct {
 
 var binops = []string{" or ", " and ", " = ", " != ", " < ", " <= ", " > ", " >= ", " + ", " - ", " * ", " div ", " mod ", " | ", "=", "!="}
 var litvals = []string{"''", "'a'", "'eth0'", "\"b\"", "'1'", "'x y'", "'é'", "'42'", "''"}
-var numvals = []string{"0", "1", "2", "42", "1.5", ".5", "1e3", "007", "3."}
+var numvals = []string{"0", "1", "2", "42", "1.5", ".5", "1e3", "007", "3.", "1e", "1.2.3", "1e400", "99999999999999999999999999999999999999999", "1E-5", "0.0000001"}
 var stepnames = []string{"a", "b", "c", "if", "name", "mtu", "x", "y", "k", "v", "pfx:a", "p:*", "*", "id"}
 
 func (g *Gen) pick(l []string) string { return l[g.T.Draw(len(l))] }
@@ -352,9 +352,22 @@ func (g *Gen) Damage(s string) string {
 	return string(b)
 }
 
-// Raw draws a short random byte/token string.
+// Raw draws a short random byte/token string (now and then a very long or very deeply nested one).
 func (g *Gen) Raw() string {
 	t := g.T
+	if t.Rare(12) {
+		n := 50 + t.Draw(400)
+		switch t.Draw(4) {
+		case 0:
+			return strings.Repeat("(", n) + "1" + strings.Repeat(")", n-t.Draw(2))
+		case 1:
+			return "1" + strings.Repeat(" + 1", n)
+		case 2:
+			return "a" + strings.Repeat("[b=c", n/8) + strings.Repeat("]", n/8)
+		case 3:
+			return strings.Repeat("not(", n/4) + "true()" + strings.Repeat(")", n/4)
+		}
+	}
 	var b []byte
 	for n := t.Draw(10); n > 0; n-- {
 		if t.Coin() {
